@@ -41,6 +41,10 @@ def streams():
     for i in range(700):
         big.append('[%7u.%03u] wl_registry@2.global(%d, "iface_with_a_rather_long_name_%d_%s", 1)' % (8000000 + i, i % 1000, i, i, 'x' * 40))
     s['big_70k'] = base['s1_mid'][0] + '\n' + '\n'.join(big) + '\n'
+    # bytes that are not UTF-8: a Latin-1 window title (libwayland prints strings raw), a Latin-1 line of the program's own,
+    # a lone continuation byte, a truncated multi-byte character at the very end
+    s['not_utf8'] = (base['s1_mid'][0].encode() + b'\ncaf\xe9: starting up\n' +
+                     b'[5000000.100]  -> xdg_toplevel@7.set_title("Caf\xe9 M\xfcller \x80")\n' + base['s1_mid'][2].encode() + b'\ntail \xe2\x82')
     return s
 
 
@@ -49,8 +53,15 @@ def streams():
 def run_cli(mode, text, supress, seed, status=0, workdir=None, parent_wd=None, options=()):
     d = workdir
     path = os.path.join(d, 'in.log')
-    with open(path, 'w') as f:
-        f.write(text)
+    data = text if isinstance(text, bytes) else text.encode()
+    with open(path, 'wb') as f:
+        f.write(data)
+    libdir = os.path.join(d, 'lib dir')
+    if '<LIBDIR>' in options:
+        os.makedirs(libdir, exist_ok=True)
+        for n in ('libwayland-client.so', 'libwayland-server.so'):
+            open(os.path.join(libdir, n), 'ab').close()
+        options = [libdir if o == '<LIBDIR>' else o for o in options]
     env = dict(os.environ, PYTHONHASHSEED=str(seed), PYTHONDONTWRITEBYTECODE='1')
     env.pop('WAYLAND_DEBUG', None)
     if parent_wd is not None:
@@ -58,13 +69,14 @@ def run_cli(mode, text, supress, seed, status=0, workdir=None, parent_wd=None, o
     main_py = os.path.join(sut.REPO, 'main.py')
     opts = (['--supress'] if supress else []) + list(options)
     if mode == 'file':
-        argv, stdin = ['/venv/bin/python', main_py] + opts + ['-l', path], 'q\n'
+        argv, stdin = ['/venv/bin/python', main_py] + opts + ['-l', path], b'q\n'
     elif mode == 'pipe':
-        argv, stdin = ['/venv/bin/python', main_py] + opts + ['-p'], text
+        argv, stdin = ['/venv/bin/python', main_py] + opts + ['-p'], data
     else:
         child = 'echo "child stdout marker"; echo "WD=$WAYLAND_DEBUG" > "$2"; cat "$1" >&2; exit %d' % status
-        argv, stdin = ['/venv/bin/python', main_py] + opts + ['-r', '/bin/sh', '-c', child, 'sh', path, os.path.join(d, 'env.txt')], 'q\n'
-    p = subprocess.run(argv, input=stdin, capture_output=True, text=True, env=env, cwd=d, timeout=120)
+        argv, stdin = ['/venv/bin/python', main_py] + opts + ['-r', '/bin/sh', '-c', child, 'sh', path, os.path.join(d, 'env.txt')], b'q\n'
+    p = subprocess.run(argv, input=stdin, capture_output=True, env=env, cwd=d, timeout=120)
+    p.stdout, p.stderr = p.stdout.decode('utf-8', 'backslashreplace'), p.stderr.decode('utf-8', 'backslashreplace')
     out = p.stdout.replace(PROMPT, '')
     marker = 'child stdout marker\n' in out
     out = out.replace('child stdout marker\n', '', 1)
@@ -81,6 +93,8 @@ def eval_modes(case):
         try:
             for mode in ('file', 'pipe', 'run'):
                 for seed in case['seeds']:
+                    if os.path.exists(os.path.join(d, 'env.txt')):
+                        os.unlink(os.path.join(d, 'env.txt'))
                     out, err, rc, marker = run_cli(mode, text, case['supress'], seed, status=case['status'], workdir=d,
                                                    parent_wd=case.get('parent_wd'), options=case.get('options', ()))
                     if case.get('stdout_only'):
@@ -181,7 +195,9 @@ def gen_run_transparency(tier):
     for c in cuts:
         yield {'what': 'split_write', 'cut': c}
     for words in (['-g'], ['--gdb', 'x'], ['-lg'], ['-r', '-p'], ['a b', '-Cg', '--run'], ['-f', 'wl_pointer', '-l', 'file'], [],
-                  ['--title', '', '-f', 'x'], ['', ''], ['x', ''], ['--flag', '--', '-r', 'positional', '--'], ['--']):
+                  ['--title', '', '-f', 'x'], ['', ''], ['x', ''], ['--flag', '--', '-r', 'positional', '--'], ['--'],
+                  ['-lrt'], ['-xrf', 'archive.tar'], ['-geometry', '80x24', '-fg', 'red'], ['-rn', '-gx'], ['-display', ':0', '-h', '--help'],
+                  ['-v', '-C', '--no-color', '-s', '--supress', '-d', 'x', '-b', 'y', '--libwayland', 'z']):
         yield {'what': 'arguments', 'words': words}
     # a bare program name is looked up on PATH by the system and reaches the program as typed
     yield {'what': 'arguments', 'words': ['x'], 'program': 'sh'}
@@ -201,6 +217,9 @@ def gen_modes(tier):
         yield {'stream': 'clean', 'supress': False, 'seeds': [0], 'status': 0, 'options': options, 'stdout_only': True}
     for wd in ('0', 'server', ''):
         yield {'stream': 'clean', 'supress': False, 'seeds': [0], 'status': 0, 'parent_wd': wd}
+    # a directory with the patched libwayland is in use (--libwayland DIR; the same as after resources/get-libwayland.sh)
+    yield {'stream': 'clean', 'supress': False, 'seeds': [0], 'status': 0, 'options': ['--libwayland', '<LIBDIR>']}
+    yield {'stream': 'clean', 'supress': False, 'seeds': [0], 'status': 5, 'options': ['--libwayland', '<LIBDIR>'], 'parent_wd': 'client'}
     statuses = [1, 2, 37, 99, 126, 127, 255] if tier == 'quick' else list(range(1, 256))
     for st in statuses:
         yield {'stream': 'unterminated' if st % 2 else 'clean', 'supress': False, 'seeds': [0], 'status': st}
@@ -329,6 +348,8 @@ def _schedule_env(case):
         ctl = Controller(o, cm, matcher.always, matcher.never)
         a = Arguments.default()
         a.command_args = ['prog', '-r', '--gdb', 'a b']
+        if case.get('libdir'):
+            a.wayland_lib_dir = case['libdir']
         prompts = []
 
         def input_func(p):
@@ -408,6 +429,8 @@ def gen_schedules(tier):
         for status in (0, 37):
             for cap in (1, 10 ** 9):
                 yield {'script': name, 'status': status, 'cap': cap, 'bound': bound}
+    # a libwayland directory is in use
+    yield {'script': 'three_writes', 'status': 37, 'cap': 1, 'bound': bound, 'libdir': '/opt/wayland build/src'}
 
 
 def run(run, tier, seed):
